@@ -85,7 +85,7 @@ Definition seg_inv (ser : list N) (ss : N) : Prop :=
   ps <= ss /\ k <= ss /\ 1 <= ss /\ ss <= nlen ser /\ nnth ser (ss - 1) = Some 47.
 
 Lemma seg_inv_app ser ss x : seg_inv ser ss -> seg_inv (ser ++ x) ss.
-Proof.
+Proof using. clear Hnf Hk.
   intros (H1 & H2 & H3 & H4 & H5). repeat split; try assumption.
   - rewrite nlen_app. lia.
   - rewrite nnth_app_lt by lia. exact H5.
@@ -93,7 +93,7 @@ Qed.
 
 Lemma seg_inv_trunc ser n : ps <= n -> k <= n -> 1 <= n -> n <= nlen ser -> nnth ser (n - 1) = Some 47 ->
   seg_inv (nfirstn n ser) (nlen (nfirstn n ser)) /\ ends_with_byte 47 (nfirstn n ser) = true.
-Proof.
+Proof using. clear Hnf Hk.
   intros H1 H2 H3 H4 H5. pose proof (nlen_nfirstn n ser H4) as L.
   assert (nnth (nfirstn n ser) (n - 1) = Some 47) as H6 by (rewrite nnth_nfirstn by lia; exact H5).
   split.
@@ -103,7 +103,7 @@ Qed.
 
 Lemma pop_path_ok s i : ps <= i -> nnth s i = Some 47 ->
   exists n, pop_path st ps s = POk (nfirstn n s) /\ ps + 1 <= n /\ n <= nlen s /\ nnth s (n - 1) = Some 47.
-Proof.
+Proof using Hnf. clear Hk.
   intros Hi Hn. pose proof (nnth_lt _ _ _ Hn) as Hlt. unfold pop_path.
   replace (ps <? nlen s) with true by lia.
   assert (nnth (nskipn ps s) (i - ps) = Some 47) as Hn' by (rewrite nnth_nskipn; replace (ps + (i - ps)) with i by lia; exact Hn).
@@ -120,7 +120,7 @@ Lemma dd_ok ser ss : seg_inv ser ss ->
   let s2 := if ends_with_byte 47 s1 && last_slash_can_be_removed s1 ps then nfirstn (nlen s1 - 1) s1 else s1 in
   exists n, shorten_path st ps s2 = POk (nfirstn n ser)
             /\ ps <= n /\ k <= n /\ 1 <= n /\ n <= nlen ser /\ nnth ser (n - 1) = Some 47.
-Proof.
+Proof using Hnf Hk.
   intros (H1 & H2 & H3 & H4 & H5). cbv zeta. unfold truncate.
   pose proof (nlen_nfirstn ss ser H4) as L.
   destruct (seg_inv_trunc ser ss H1 H2 H3 H4 H5) as [_ He]. rewrite He. cbn [andb].
@@ -149,7 +149,7 @@ Lemma finish_ok ser ss ews hh : seg_inv ser ss ->
   (ews = true -> ss + 1 <= nlen ser /\ ends_with_byte 47 ser = true) ->
   exists s', finish_segment dbg st ps ser ss ews hh = POk (s', hh) /\ agree_pre k ser s'
              /\ (ews = true -> seg_inv s' (nlen s')).
-Proof.
+Proof using Hnf Hk.
   intros I Hews. pose proof I as (H1 & H2 & H3 & H4 & H5). unfold finish_segment.
   rewrite slice_o_some; [| destruct ews; [destruct (Hews eq_refl); lia | lia] | destruct ews; lia].
   cbn [of_option pbind].
@@ -170,22 +170,22 @@ Proof.
 Qed.
 
 Lemma push_pending_app ctx pend ser : exists x, push_pending ctx st ser pend = ser ++ x.
-Proof.
+Proof using. clear Hnf Hk.
   unfold push_pending. destruct pend as [|c r]; [exists []; rewrite app_nil_r; reflexivity|].
   unfold push_encoded. eexists. reflexivity.
 Qed.
 
 Lemma rem_ok_nil : rem_ok [].
-Proof. exact I. Qed.
+Proof using. exact I. Qed.
 
 Lemma rem_ok_cons c r : is_tnl c = false -> is_qh c = true -> rem_ok (c :: r).
-Proof. intros Ht Hq. unfold rem_ok. rewrite inp_next_cons by exact Ht. exact Hq. Qed.
+Proof using. intros Ht Hq. unfold rem_ok. rewrite inp_next_cons by exact Ht. exact Hq. Qed.
 
 Notation loop := (parse_path_loop dbg CUrlParser st ps).
 
 Theorem loop_ok l : forall ser ss pend hh, seg_inv ser ss ->
   exists s' rem, loop l ser ss pend hh = POk (s', hh, rem) /\ agree_pre k ser s' /\ rem_ok rem.
-Proof.
+Proof using Hnf Hk.
   assert (forall l0 ser ss pend hh, seg_inv ser ss -> rem_ok l0 ->
             exists s' rem,
               (' (s2, hh0) <~ finish_segment dbg st ps (push_pending CUrlParser st ser pend) ss false hh ;;
